@@ -19,7 +19,7 @@ structure SidxRef where
 def SidxRef.Wf (r : SidxRef) : Prop :=
   r.ref_type < 2 ∧ r.ref_size < 2147483648 ∧ r.duration < 4294967296 ∧
   r.starts_with_SAP < 2 ∧ r.SAP_type < 8 ∧ r.SAP_delta_time < 268435456
-instance (r : SidxRef) : Decidable r.Wf := by unfold SidxRef.Wf; infer_instance
+instance instIndex1 (r : SidxRef) : Decidable r.Wf := by unfold SidxRef.Wf; infer_instance
 
 /-- `SegmentReference.encode` (`writebits` 1+31, 32, 1+3+28) -/
 def encSidxRef (r : SidxRef) : Bytes :=
@@ -49,7 +49,7 @@ def Sidx.Wf (x : Sidx) : Prop :=
   x.earliest_presentation_time < wBound (x.version != 0) ∧
   x.first_offset < wBound (x.version != 0) ∧
   x.references.length < 65536 ∧ ∀ r ∈ x.references, r.Wf
-instance (x : Sidx) : Decidable x.Wf := by unfold Sidx.Wf; infer_instance
+instance instIndex2 (x : Sidx) : Decidable x.Wf := by unfold Sidx.Wf; infer_instance
 
 def encSidx (x : Sidx) : Bytes :=
   encU8 x.version ++ (encU24 x.flags ++ (encU32 x.reference_id ++ (encU32 x.timescale ++
@@ -94,7 +94,7 @@ def Emsg.Wf (x : Emsg) : Prop :=
   x.timescale < 4294967296 ∧ x.event_duration < 4294967296 ∧ x.event_id < 4294967296 ∧
   (if x.version = 0 then x.presentation_time_delta < 4294967296 ∧ x.presentation_time = 0
    else x.presentation_time < 18446744073709551616 ∧ x.presentation_time_delta = 0)
-instance (x : Emsg) : Decidable x.Wf := by unfold Emsg.Wf; infer_instance
+instance instIndex3 (x : Emsg) : Decidable x.Wf := by unfold Emsg.Wf; infer_instance
 
 def encEmsg (x : Emsg) : Bytes :=
   encU8 x.version ++ (encU24 x.flags ++
